@@ -362,6 +362,7 @@ type fillMempool struct {
 	lastGas int64
 	lastN   int
 	lastSz  int64
+	prefix  []types.Tx
 }
 
 func txCost(l int) int64 { return int64(1 + uvarintLen(uint64(l)) + l) }
@@ -483,7 +484,15 @@ func (m *fillMempool) ReapMaxBytesMaxGas(maxBytes, maxGas int64) types.Txs {
 		m.lastN, m.lastSz = 0, 0
 		return types.Txs{}
 	}
-	txs := fillTxs(m.r, m.mode, maxBytes)
+	// transactions queued ahead of the filler (validator churn), as far as they fit
+	var txs types.Txs
+	for _, tx := range m.prefix {
+		if c := txCost(len(tx)); c <= maxBytes {
+			txs = append(txs, tx)
+			maxBytes -= c
+		}
+	}
+	txs = append(txs, fillTxs(m.r, m.mode, maxBytes)...)
 	m.lastN, m.lastSz = len(txs), types.ComputeProtoSizeForTxs(txs)
 	return txs
 }
